@@ -18,37 +18,41 @@ CLAIMED = {
    note="Not decided: the full decision procedure as a postcondition (every check has a satisfied query in its scope <=> no check error): it needs a specification-level definition of 'query satisfied in scope', i.e. the Datalog semantics of C05, which is not available as a contract. Error message contents are not specified.",
    technique=T, ref="4/C04"),
  "C05": dict(
-   text="Proof for the leaf operations of the engine: Term.Equal (all 7 implementations against one interface contract), Predicate.Equal/Match/Clone, FactSet.Insert/InsertAll (set semantics, no-growth => subset), advanceIndexes (lexicographic successor with carry), MatchedVariables Insert/Complete/Clone, World AddFact/AddRule/ResetRules/Clone.",
-   note="Rule.Apply, combine$1 (join enumeration), World.Run/Run$1 (fixpoint loop) and QueryRule are under contract for well-formedness, frames (the source fact set is never written; new facts only grow), arity agreement of every matched combination and 'nil verdict only when an iteration added nothing'. Not decided: completeness of the enumeration (every matching combination is produced) and minimality of the model - whole-history statements over the sequence of channel values, which the producer/consumer rule does not carry.",
+   text="Proof (partial). Leaves with full functional contracts: Term.Equal (all 7 implementations against one interface contract), Predicate.Equal/Match/Clone, FactSet.Insert/InsertAll (set semantics, no-growth => subset), advanceIndexes (lexicographic successor with carry), MatchedVariables Insert/Complete/Clone, World AddFact/AddRule/ResetRules/Clone. Join soundness: the rule-application goroutine is proved to send only bindings that unify every variable position of every body predicate with the fact chosen for it (first occurrence binds, later occurrences passed Term.Equal), with matching arity and name. Fixpoint step: a nil verdict is sent only when an iteration added no fact.",
+   note="Rule.Apply, combine$1, World.Run/Run$1 and QueryRule are also under contract for well-formedness and frames (the source fact set is never written; new facts only grow). Not decided: completeness of the enumeration (every matching combination is produced - a statement over the whole sequence of channel values, which the producer/consumer rule does not carry), that expressions filter exactly (Evaluate's full semantics), and minimality of the model.",
    technique=T, ref="4/C05"),
  "C06": dict(
    text="Proof: every Eval of the operator table, Evaluate, the evaluation stack and the symbol-table functions they use are under contract; each row of the table is an ensures clause discharged for all operand values (64-bit wrap modelled exactly), together with every panic site (nil, index, type assertion, division, unhashable map key) in those functions. All 20 operator implementations are also verified against the interface-method contracts used by Evaluate.",
    note="Assumed: contracts of math/big, strings, regexp, fmt, bytes (contracts/extern.spec); closed world for datalog.Term/Op; regex and substring semantics uninterpreted. Not decided: completeness of Set.Intersect/Union results (soundness is proved), and Evaluate's full postfix semantics beyond well-formedness, error cases and one-element expressions.",
    technique=T, ref="4/C06"),
  "C07": dict(
-   text="Proof (partial): token-to-wire converters are under contract for totality on well-formed content, fresh results and no writes to existing memory; symbol-table Insert/Str/Var/Clone/Extend/IsDisjoint have full functional contracts (default table below 1024, offsets, prefix preservation).",
-   note="Not yet under contract: the wire-to-token direction, the literal operator/term tag tables and the version gate (planned); protobuf encode/decode is an assumed contract. The round-trip statement is therefore not decided yet.",
+   text="Proof (partial): both converter directions (token <-> wire, 19 functions) are under contract row by row (term kinds and tags, operator codes, totality on well-formed content, fresh results, no writes to existing memory); the builder-level value layer (types.go: convert and fromDatalog for terms, predicates, expressions, rules, checks) likewise (each operator and term kind maps to its counterpart, strings resolve to the inserted symbol); symbol-table Insert/Str/Var/Clone/Extend/IsDisjoint/SplitOff have full functional contracts (default table below 1024, offsets, prefix preservation); Unmarshal is proved to produce a well-formed token or an error; the block builder is proved to emit only the new symbols and the facts, rules and checks it was given, with version 3.",
+   note="Assumed: protobuf encode/decode. Not decided: the end-to-end round trip as one lemma (decode(encode(x)) == x composes the row contracts of both directions but is not stated as a single obligation), dates (time.Time is opaque), and dangling symbol indices (printed as a placeholder, not rejected).",
    technique=T, ref="4/C07"),
  "C08": dict(
    text="Proof (partial): Append and Seal are proved to write nothing that existed before the call (strict frame: every store, map update, in-place append and callee effect is an obligation against 'modifies nothing'), SymbolTable.Clone is proved to own a fresh backing array, and the new token's envelope is proved to carry the parent's signed blocks unchanged.",
-   note="Not yet under contract for this property: CreateBlock, block builders, GetBlockID, Authorize, printing; so only the append/seal part of the statement is decided.",
+   note="Also proved: CreateBlock hands the block builder a private clone of the symbol table, block-builder methods write only builder-owned memory, Build returns a block that shares no array with the builder, GetBlockID and Serialize write nothing, Authorize writes only the authorizer. Not decided: printing functions are proved read-only but String/Code of a token are not yet under contract.",
    technique=T, ref="4/C08"),
  "C09": dict(
    text="Proof (partial): Seal is proved to keep the envelope (same authority block and signed blocks, same root key id), to copy block contents and symbols unchanged, to replace the proof by a signature of exactly the seal payload of the last block under the held next secret (so the closing proof verifies whenever the parent's did: seal_verifies), and both Seal and Append are proved to refuse a token without a next secret (sealed) with an error and no token. The lemma same_envelope_same_chain (proved from the definitions) turns 'same envelope' into 'the chain verifies under the same root key'; with authorizerFor's accept <=> chain-and-proof contract the sealed token is accepted exactly when its parent was.",
    note="Assumed: ed25519 sign-then-verify, protobuf round trip (so 'still holds after serialization' rests on the assumed Marshal/Unmarshal contract). Premise of seal_verifies: the last block's algorithm number is non-negative (it is 0 for every token that verifies). Not decided: 'same authorization outcome for every authorizer' as one statement (it is the composition of content_same with Authorize reading only that content - a relational statement); rejection of an altered seal follows from the iff of C01 plus unforgeability, which no contract expresses.",
    technique=T, ref="4/C09"),
  "C10": dict(
-   text="Proof: a panic-freedom sweep over every function under contract (95 functions): each nil dereference, index, slice bound, type assertion, division, unhashable map key, nil map write, explicit panic and panicking library precondition (ed25519 key/seed lengths) is an obligation proved under the invariants that decoding and the builders establish (wfToken, blockWF, termWF...).",
-   note="Functions not yet under contract are not covered (Unmarshal's decode path, Authorize, printing, parser): listed in evidence. Out-of-memory and stack depth are not panics a contract can see. Dependencies are trusted to satisfy their assumed contracts.",
+   text="Proof: a panic-freedom sweep over every function under contract (about 230 functions: datalog engine incl. its goroutines, expressions, symbol table, printing, converters both directions, Unmarshal, token construction/Append/Seal, builders, authorizer incl. Authorize/Query/LoadPolicies/SerializePolicies, parser conversion layer): each nil dereference, index, slice bound, type assertion, division, unhashable map key, nil map write, explicit panic and panicking library precondition (ed25519 key/seed lengths) is an obligation proved under the invariants that decoding and the builders establish (wfToken, blockWF, termWF...).",
+   note="Not covered: Biscuit.String/Code, Block.String/Code, experiments package, the MustParser wrappers (they panic by design). Out-of-memory and stack depth are not panics a contract can see. Dependencies are trusted to satisfy their assumed contracts.",
    technique=T, ref="4/C10"),
  "C11": dict(
    text="Proof (producer/consumer rule): the goroutine bodies combine$1 and World.Run$1 are under contract with channel clauses (every sent value satisfies the channel invariant, nothing is sent after a final value, at most one verdict, channel closed on return); Rule.Apply and World.Run are proved against them, with a stranding obligation at every return (the producer is known to have finished, or the buffer covers what it may still send). World.Run's nil verdict is proved to be sent only when an iteration added nothing and the fact count is below the limit; limit plumbing: WithWorldOptions/NewVerifier/AuthorizerFor/Authorizer are proved to hand the caller's options to every world.",
-   note="Interleavings are not modelled: a goroutine body is verified as a sequential function and the consumer sees its effects only at receives (sound for the clauses used: they talk about sent values and monotone state). Wall-clock behaviour of the deadline is context.WithTimeout's assumed contract. Not yet under contract: Authorize's mapping of limit errors to authorization failure.",
+   note="Interleavings are not modelled: a goroutine body is verified as a sequential function and the consumer sees its effects only at receives (sound for the clauses used: they talk about sent values and monotone state). Wall-clock behaviour of the deadline is context.WithTimeout's assumed contract. Authorize and Query are proved to return the run error (a nil result implies the fact count is below the limit).",
    technique=T, ref="4/C11"),
  "C13": dict(
    text="Proof: Reset is proved to install fresh clones of the base world and base symbol table (same facts, rules, limits, symbols) with empty check and policy lists; Authorize, Query, AddFact, AddRule, AddCheck, AddPolicy are proved (strict write frames) never to write the base world, the base symbol table or their visible contents; the authorizer invariant (working state separate from base state and from the token's own arrays) is proved to be established by the constructors and preserved by every method under contract.",
    note="Not yet under contract: LoadPolicies, SerializePolicies, PrintWorld, AddBlock/AddAuthorizer wrappers. 'behaves exactly like a new authorizer' is decided as state equality of what Reset installs with what the constructor installs (both are clones of the same base state), not as a relational statement over runs.",
    technique=T, ref="4/C13"),
+ "C14": dict(
+   text="Proof (partial) for the conversion layer between participle's syntax tree and the values the library works with: Term.ToBiscuit row by row (integer, string, variable, bool, set without variables, parameter substituted or 'unbound parameter' error, value or error never both), the operator table at each precedence level (every level appends exactly its own operators: || ; && ; comparisons ; + - ; * / ; methods), negation and parentheses appended after their operand (postfix order of each node), 'or' as alternative queries (one rule per alternative), allow/deny kinds, 'query' heads, facts without variables, every flattened expression checked for unconverted operands (the repaired defect), and panic freedom of all 35 functions of the layer and of the six entry points.",
+   note="Assumed, not proved: participle itself - lexing, the grammar's precedence and associativity as encoded in the struct tags, and the shape of the tree it returns (required captures and elements of repeated captures are non-nil: 'assumes' clauses and the extern contract of ParseString). So 'denotes exactly the documented grammar' is decided only from the tree downwards; the postfix order of a whole expression is decided per node (each node appends its operands' output then its own operator), not as one statement over the flattened sequence.",
+   technique=T, ref="4/C14"),
  "C16": dict(
    text="Proof: the key-selection closures are proved against the statement (id present and registered -> that key; id present and unknown -> ErrNoPublicKeyAvailable, never the default; no id -> default or the error); newBiscuit stores the identifier given by the options; Append and Seal are proved to carry the parent's identifier (value semantics of *uint32).",
    note="Assumed: protobuf keeps the optional field across serialisation. Not yet under contract: AuthorizerFor's use of the selected key and Build's passing of the option (planned).",
